@@ -162,6 +162,9 @@ def parse_params(text):
         if not m:
             raise Unsupported('parameter %r' % p)
         typ, star1, mv, star2, name = m.groups()
+        if typ.endswith('_ptr') and not (star1 or star2 or mv):
+            params.append((name, 'fn'))          # pointer to a scalar kernel: a function argument
+            continue
         if typ not in SCALAR_TYPES:
             raise Unsupported('parameter type %s' % typ)
         if mv:
@@ -275,6 +278,11 @@ def expr(n, env, cx):
             return '(fmax %s %s)' % tuple(args)
         if f == 'fmod' and len(args) == 2:
             return '(cfmod %s %s)' % tuple(args)
+        if env.get('fn:' + f):
+            ar = env['fnarity'].setdefault(f, len(args))
+            if ar != len(args):
+                raise Unsupported('function parameter %s called with different numbers of arguments' % f)
+            return '(%s %s)' % (lean_name(f), ' '.join(args))
         if f in cx.known:
             params, outs, ret = cx.known[f]
             if ret == 'void':
@@ -466,9 +474,12 @@ def translate(module, name, ret, ptext, body, consts, known):
     # keep the literal text of float constants (repr would do, but the source text is the specification)
     cells = out_cells(params, tree, known)
     cx = Ctx(module, consts, known)
-    env, largs = {}, []
+    env, largs = {'fnarity': {}}, []
     for pn, kind in params:
-        if kind == 'scalar':
+        if kind == 'fn':
+            env['fn:' + pn] = True
+            largs.append((lean_name(pn), None))        # type filled in once the arity is known from the calls
+        elif kind == 'scalar':
             env[pn] = lean_name(pn)
             largs.append((lean_name(pn), 'α'))
         elif kind == 'vec':
@@ -498,6 +509,12 @@ def translate(module, name, ret, ptext, body, consts, known):
             raise Unsupported('control reaches the end of a non-void function')
         term = g.block(tree.body, env, no_fall, 1)
         rtype = 'α'
+    for i_, (an, ty) in enumerate(largs):
+        if ty is None:
+            raw = [pn for pn, kd in params if kd == 'fn' and lean_name(pn) == an][0]
+            if raw not in env['fnarity']:
+                raise Unsupported('function parameter %s is never called' % raw)
+            largs[i_] = (an, ' → '.join(['α'] * (env['fnarity'][raw] + 1)))
     sig = ' '.join('(%s : %s)' % a for a in largs)
     text = 'def %s %s : %s :=\n%s\n' % (lean_name(name), sig, rtype, term if term.startswith(' ') else '  ' + term)
     return {'name': name, 'lean': text, 'params': params, 'cells': cells, 'ret': 'void' if is_void else 'scalar', 'args': largs,
@@ -788,8 +805,16 @@ def render(modules):
             n = len(t['args'])
             # all arguments are passed as floats; vectors take 3 floats (only 3-vectors occur in the fragment)
             call, pos = [], 0
+            FN = {'transition_ratio_fn': 'gaussian_transition_ratio', 'prior_ratio_fn': 'uniform_prior_ratio', 'jump_params_fn': 'gaussian_jump_prob'}
+            names_here = {x['name'] for x in done}
+            skip_row = False
             for an, ty in t['args']:
-                if ty == 'α':
+                if '→' in ty:
+                    if FN.get(an) in names_here:
+                        call.append('Pyx.%s.%s' % (mod, lean_name(FN[an])))
+                    else:
+                        skip_row = True
+                elif ty == 'α':
                     call.append('(a.getD %d 0)' % pos)
                     pos += 1
                 else:
@@ -801,7 +826,8 @@ def render(modules):
                 body = '[%s %s]' % (fn, ' '.join(call))
             else:
                 body = 'let r := %s %s; [%s]' % (fn, ' '.join(call), ', '.join(proj('r', i, ncell) for i in range(ncell)))
-            rows.append('  ("%s.%s", (%d, fun a => %s))' % (mod, t['name'], pos, body))
+            if not skip_row:
+                rows.append('  ("%s.%s", (%d, fun a => %s))' % (mod, t['name'], pos, body))
         for t in loops:
             out.append(t['lean'])
             fn = 'Pyx.%s.%s' % (mod, lean_name(t['name']))
